@@ -3,7 +3,7 @@ import hashlib, json, os
 from vlib import core
 
 MODS = ["AvoVerif.Props.C12"]
-GO_FILES = ["c12.go", "c12enc.go"]
+GO_FILES = ["c12.go", "c12enc.go", "c12cli.go"]
 
 
 def differential_fmt(ctx, sub, n, extra=(), nontrivial=None, max_report=20, timeout=3600, tag=""):
@@ -143,6 +143,21 @@ def run(ctx):
         "judged_stub_percent": nb // 10, "judged_stub_quote_backslash": nb // 8, "judged_stub_backquote": nb // 20,
         "judged_stub_nonascii": nb // 4,
     })
+    # the ROUTES by which a stub file comes into being: the configuration layer (seeded change C12-9)
+    nc = 60 if quick else 2500
+    st = differential_fmt(ctx, "c12cli", nc, extra=["-work", ctx.dir],
+                          nontrivial=lambda req, resp: req.startswith(("cli ", "accept-cli", "accept-build")) or has(req, resp))
+    floors(ctx, "c12cli", st, {
+        "cli_cases": nc * 9 // 10, "cli_exact": nc * 2 // 3, "cli_judged": nc * 2 // 3, "judged_gostub": nc * 2 // 3,
+        "cli_route_flags": nc // 2, "cli_route_generate": 8 if quick else 60,
+        "cli_pkg_given": nc // 5, "cli_pkg_omitted": nc // 10, "cli_pkg_empty": 1,
+        "cli_explicit_pkg": nc // 5, "cli_explicit_pkg_dir_differs": nc // 8, "cli_explicit_pkg_other_dir_differs": nc // 10,
+        "cli_default_pkg_other_dir_differs": nc // 10, "cli_dir_equals_pkg": nc // 15,
+        "cli_pair": nc // 4, "cli_pair_dir_differs": nc // 6, "pair_linked": nc // 4,
+        "cli_expected_failure": 1, "cli_repeated_flag": nc // 12, "cli_terminator": 1, "cli_positional": 1,
+        "cli_layout_sub-up": 2, "cli_layout_sibling": 2, "cli_layout_abs": 2, "cli_layout_down": 2, "cli_layout_cwd-bare": 2,
+        "cli_layout_split": 1, "cli_layout_stub-stdout": 1,
+    })
     ctx.coverage["proof_partial"] = (
         "PROVED (Lean, all inputs): the text handed to go/format declares the configured package once and each function of the file "
         "exactly once in file order, each declaration directly preceded by its doc lines and then its directives (parse_stubs, "
@@ -159,7 +174,13 @@ def run(ctx):
         "are the Stub() texts (declTexts_stubLines, acceptVerbatim_model); the acceptor run on the REAL file as `accept-verbatim` is sound "
         "(acceptVerbatim_sound: first line = generated-code comment, every declaration = Stub() up to the layout characters blank/tab/"
         "newline/`;`, every other character with its multiplicity: squash_count); format_string_corrupts_declaration is the proved witness "
-        "that a declaration used as a format string passes acceptStubs and is rejected by acceptVerbatim. NOT PROVED, measured on generated cases only: that "
+        "that a declaration used as a format string passes acceptStubs and is rejected by acceptVerbatim. The CONFIGURATION LAYER (build.NewFlags / flag parsing / Flags.Config): "
+        "for every working directory, command line and file the stub text has the package clause cliPkg = the explicit non-empty -pkg, "
+        "otherwise the working directory's base name, whatever -out/-stubs point to (cli_explicit_pkg_wins, cli_default_pkg, "
+        "setFlag_keeps_pkg, cli_cmdline_pkg for the command line `-out A -stubs S -pkg P` with ALL A, S, P; cli_stub_package_clause, "
+        "cli_stub_text_package on the bytes), and both files are printed under that one configuration (cli_pair_same_config); tied by the "
+        "exact `cli` stream: package clause of the file that came out and the destinations == parseArgs/cliPkg of the command line. "
+        "NOT PROVED, measured on generated cases only: that "
         "go/format preserves all this, that the result is valid gofmt-stable Go, type identity of the printed signature "
         "(types.WriteSignature is opaque), compile/link/vet. newline_injects_declaration is a proved NEGATIVE witness (finding).")
     ctx.coverage["rule"] = (
@@ -184,6 +205,16 @@ def run(ctx):
         "as packages of one module with bodies that load every named parameter and store every named result: go list (same constraints select "
         "both files), go build, go vet -asmdecl, and an executable referencing every function the stub DECLARES (link: declared => defined). "
         "`accept-verbatim`: Lean acceptor on the real output (generated-code comment as given; every declaration equal to Stub() up to layout). "
+        "c12cli: the ROUTES by which a stub file comes into being — generated command lines (-out/-stubs/-pkg/-e/-log in the four flag spellings, "
+        "repeated flags, `--`, a positional argument) x layouts on disk (bare names, ./, ../ from a sub-directory, sibling directory, absolute paths "
+        "from elsewhere, sub-directory, assembly and stubs in different directories, either file on standard output, no stubs) x directory names "
+        "(equal to the package, v2, go-foo, foo_amd64, not an identifier, non-ASCII) x -pkg given/omitted/empty, executed in process "
+        "(build.NewFlags on a private FlagSet + Flags.Config + build.Main with the case's working directory, os.Args, os.Stdout) and by a child "
+        "process calling build.Generate() on the package-level context; real files under .work; `cli` exact vs the Lean model of the command line; "
+        "`accept-cli` measured against the plan (status, which file holds what, go/parser package clause = requested package); the stub file that "
+        "came out goes through wf-stubs/stubs/accept-stubs/accept-verbatim/accept-cons/accept-gostub under the expected configuration "
+        "(Argv = go run main.go + command line, Pkg = requested package); pairs that landed in one directory are listed, built, vetted and linked "
+        "beside a file of the REQUESTED package (accept-build). "
         "Lower bounds on the number of judged cases per class are obligations, incl. per position (Stub() text, directive argument, doc line, "
         "tool name/command line, package, constraint line) the number of texts that REACHED the printer with %, quote/backslash, backquote, "
         "comment markers, non-ASCII. non-trivial = file has at least one function")
@@ -196,6 +227,7 @@ def run(ctx):
         "`accept-verbatim` takes avo's own Function.Stub() as the text to be transported (a corruption INSIDE Stub()/Signature.String is judged by accept-gostub: types.Identical incl. struct tags against the signature the harness evaluated from the expression)",
         "directive NAMES are sampled from [a-z0-9]+ only (go/format does not treat `//go:` followed by another character as a directive); doc words avoid nothing, pragma arguments have no leading/trailing blank",
         "in pairs that go through vet, parameter/field names use no letters U+0080..U+00FE: vet's asmdecl lexer (`[a-zA-Z0-9_\\xFF-\\x{10FFFF}]+`) reads avo's correct `ñ0+0(FP)` as `0+0(FP)`; such names are sampled in the type-checked part only",
+        "configuration layer: the flag syntax of the standard flag package is modelled for the flags avo registers (unknown flags, -h, missing values, bad booleans = error); os.Create failures of -out/-stubs (missing directory) and both outputs given the SAME file are out of the generated domain; a default package name that is not an identifier (working directory `go-foo`, no -pkg) is expected to FAIL (exit status 1, go/format rejects the file) and is judged by accept-cli only; printer.NewArgvConfig/NewDefaultConfig are reached through NewGoRunConfig's fallback only (the harness has a main.main frame)",
         "the sticky-error path of the printer (buildtags.Format failing) is not modelled: such cases are dropped (bounded by the sample floors)",
     ]
     ctx.trusted += [
